@@ -693,7 +693,7 @@ impl Wal {
             proof { reveal_strlit("wal-"); reveal_strlit(".log"); assert(entry == es[it.index() as int]); }
 //@after "newest = Some(entry.path())"
                                 proof { w = it.index() as int; }
-//@before "Ok(max_sequence)"
+//@atend
         proof {
             if newest is Some {
                 lemma_newest_covers(es, w, max_sequence);
@@ -893,7 +893,7 @@ impl Wal {
                     assert((seen0 + (d0 + wanted(done, from_sequence))).skip(seen0.len() as int) =~= d0 + wanted(done, from_sequence));
                 }
             }
-//@before "Ok(last_sequence)"
+//@atend
         proof {
             lemma_run_end(cs, from_sequence, from_sequence, t.0.take(callback.seen().len() - seen0.len()), last_sequence);
         }
